@@ -108,7 +108,8 @@ class OpSequence(Scenario):
             ops = [first] + [OPS[int(cx.int(f"op{t}", 0, len(OPS)))] for t in range(1, length)]
             done = []
             for t, op in enumerate(ops):
-                o = get("o")
+                # a removed object is not operated on again (a lookup may still find it until the collector has run)
+                o = None if st.get("removed") else get("o")
                 try:
                     if op == "reopen":
                         st["ws"].close()
@@ -162,6 +163,7 @@ class OpSequence(Scenario):
                                 pgs[0].add_properties(d)
                     elif op == "remove_object":
                         st["ws"].remove_entity(o)
+                        st["removed"] = True
                     elif op == "set_flags":
                         o.visible = False
                         o.allow_rename = False
